@@ -10,7 +10,7 @@ use crate::faults::{self, Fault};
 use crate::guard::GuardedBuf;
 use crate::model::*;
 use crate::producer::{gen_stream, ProdCfg};
-use crate::real::{classify, Act, Event, RealClass, Recorder, TagError};
+use crate::real::{classify, loader_error_for, state_for, Act, Event, RealClass, Recorder, TagError};
 use crate::rng::Rng;
 use rspirv::binary::{parse_bytes, Consumer, ParseAction, ParseState, Parser};
 use rspirv::dr;
@@ -132,6 +132,13 @@ fn check_script(bytes: &[u8], base_log: &[Event], base_res_code: u32, script: &[
         Some(k) => {
             let act = script[k];
             let locus = format!("at={} action={}", pos_name(k), if act == Act::Stop { "stop" } else { "error" });
+            let act_code = match act {
+                Act::Stop => 1,
+                Act::Error(_) => 2,
+                Act::ErrorState(_) => 3,
+                Act::ErrorLoader(_) => 4,
+                Act::Continue => 0,
+            };
             cov.triple(
                 match base_log[k] {
                     Event::Init => 0,
@@ -139,7 +146,7 @@ fn check_script(bytes: &[u8], base_log: &[Event], base_res_code: u32, script: &[
                     Event::Inst(_) => 2,
                     Event::Finalize => 3,
                 },
-                if act == Act::Stop { 1 } else { 2 },
+                act_code,
                 base_res_code,
             );
             if rec.log.len() > k + 1 {
@@ -160,6 +167,16 @@ fn check_script(bytes: &[u8], base_log: &[Event], base_res_code: u32, script: &[
                 (Act::Error(tag), Err(ParseState::ConsumerError(e))) => match e.downcast_ref::<TagError>() {
                     Some(TagError(t)) if *t == tag => {}
                     _ => return mk("error-value", locus, format!("consumer returned error tag {} but the parse result carries {:?}", tag, e.to_string())),
+                },
+                (Act::ErrorState(n), Err(ParseState::ConsumerError(e))) => match e.downcast_ref::<ParseState>() {
+                    Some(st) if format!("{:?}", st) == format!("{:?}", state_for(n)) => {
+                        cov.hit("reached.consumer_error_is_a_parse_state");
+                    }
+                    _ => return mk("error-value", format!("{} type=ParseState", locus), format!("consumer returned a ParseState value ({:?}) as its error but the parse result carries {:?}", state_for(n), e.to_string())),
+                },
+                (Act::ErrorLoader(n), Err(ParseState::ConsumerError(e))) => match e.downcast_ref::<dr::Error>() {
+                    Some(le) if format!("{:?}", le) == format!("{:?}", loader_error_for(n)) => {}
+                    _ => return mk("error-value", format!("{} type=dr::Error", locus), format!("consumer returned {:?} as its error but the parse result carries {:?}", loader_error_for(n), e.to_string())),
                 },
                 _ => {
                     return mk("action-result", locus, format!("consumer answered {:?} at callback #{} but the parse returned {:?}", act, k, res.as_ref().err().map(|e| format!("{:?}", e)).unwrap_or("Ok".into())));
@@ -197,7 +214,12 @@ impl Property for C14 {
             let mut sc = vec![Act::Continue; n];
             for a in sc.iter_mut() {
                 if rng.chance(1, 6) {
-                    *a = if rng.chance(1, 2) { Act::Stop } else { Act::Error(rng.u32()) };
+                    *a = match rng.below(4) {
+                        0 => Act::Stop,
+                        1 => Act::Error(rng.u32()),
+                        2 => Act::ErrorState(rng.below(5) as u8),
+                        _ => Act::ErrorLoader(rng.below(3) as u8),
+                    };
                 }
             }
             extra.push(sc);
@@ -337,7 +359,7 @@ impl Property for C14 {
                 }
                 None => {
                     for k in 0..=log.len() {
-                        for act in [Act::Stop, Act::Error(0xC14_0000 + k as u32)] {
+                        for act in [Act::Stop, Act::Error(0xC14_0000 + k as u32), if k % 2 == 0 { Act::ErrorState(k as u8) } else { Act::ErrorLoader(k as u8) }] {
                             let mut sc = vec![Act::Continue; k];
                             sc.push(act);
                             step += 1;
